@@ -103,6 +103,8 @@ class Ledger(object):
         self.cancel_requested = False
         self.cmd_execs = []          # pseudo executions of engine commands (terminal contexts)
         self.racy_vars = set()
+        self.tainted_writes = set()
+        self.racy_conditions = 0
         self.root = None
         self.reruns = 0
         self.routes_seen = {}
@@ -121,14 +123,19 @@ class Ledger(object):
         self.root = RefCtx(dict(d), frozenset(w.wid for w in d.values()), [0])
         return self.root
 
-    def child_ctx(self, parent, new_writes):
+    def child_ctx(self, parent, new_writes, tainted=()):
+        """tainted: variables among new_writes whose value was computed from an order-decided
+        (racy) variable; taint propagates through copies, a clean re-publish clears it."""
         if not new_writes:
             return RefCtx(dict(parent.vals), parent.hist, list(parent.idxs), parent.racy)
         self.deltas.append(dict(new_writes))
         vals = dict(parent.vals)
         vals.update(new_writes)
         hist = parent.hist | frozenset(w.wid for w in new_writes.values())
-        racy = parent.racy - frozenset(new_writes.keys())
+        racy = (parent.racy - frozenset(new_writes.keys())) | frozenset(tainted)
+        for w in new_writes.values():
+            if w.var in tainted:
+                self.tainted_writes.add(w.wid)
         return RefCtx(vals, hist, list(parent.idxs) + [len(self.deltas) - 1], racy)
 
     def merge_ctx(self, merged, arriving):
@@ -341,6 +348,10 @@ class Ledger(object):
             rolling = dict(vals)
             new = OrderedDict()
             bad = False
+            racy_now = set(x.ref.racy)
+            tainted = set()
+            if tr.get("when") is not None and (lang.reads(tr["when"]) & racy_now):
+                self.racy_conditions += 1
             for var, vnode in tr.get("publish") or []:
                 try:
                     val = lang.eval_value(vnode, result, rolling)
@@ -350,10 +361,16 @@ class Ledger(object):
                     continue
                 rolling[var] = val
                 new[var] = self.new_write(var, val, "%s.%d" % (x.key(), i))
+                if lang.reads(vnode) & racy_now:
+                    tainted.add(var)
+                    racy_now.add(var)
+                else:
+                    tainted.discard(var)
+                    racy_now.discard(var)
             if bad:
                 continue
             any_fired = True
-            out = self.child_ctx(x.ref, new)
+            out = self.child_ctx(x.ref, new, tainted)
             x.fired.append((i, do))
             has_fail = "fail" in do
             any_fail = any_fail or has_fail
